@@ -108,10 +108,33 @@ pub struct AState {
     pub writeable_last: String,
 }
 
+pub struct CountWaker(pub std::sync::atomic::AtomicUsize);
+impl std::task::Wake for CountWaker {
+    fn wake(self: Arc<Self>) { self.0.fetch_add(1, std::sync::atomic::Ordering::SeqCst); }
+    fn wake_by_ref(self: &Arc<Self>) { self.0.fetch_add(1, std::sync::atomic::Ordering::SeqCst); }
+}
+type TokenFut = Pin<Box<dyn Future<Output = fastcgi_server::async_io::Token>>>;
+#[derive(Default)]
+pub struct KState {
+    pub runners: Vec<&'static fastcgi_server::async_io::Runner>,
+    pub futs: Vec<Option<(TokenFut, Arc<CountWaker>)>>,
+    pub tokens: Vec<Option<fastcgi_server::async_io::Token>>,
+    pub shutdown: Option<(Pin<Box<dyn Future<Output = ()>>>, Arc<CountWaker>)>,
+}
+impl KState {
+    fn suffix(&self) -> String {
+        let live = self.tokens.iter().filter(|t| t.is_some()).count();
+        let items: Vec<String> = self.futs.iter().enumerate().filter_map(|(i, f)| f.as_ref().map(|(_, w)| format!("{i}:{}", w.0.load(std::sync::atomic::Ordering::SeqCst)))).collect();
+        // the semaphore's free count is not observable: report max - live - (permits held by nobody is exactly that)
+        format!(" live={live} free=? wakes={}", if items.is_empty() { "-".to_string() } else { items.join(",") })
+    }
+}
+
 #[derive(Default)]
 pub struct Impl {
     pub cur: Cur,
     pub a: AState,
+    pub k: KState,
 }
 fn kv<'a>(args: &'a [&'a str], key: &str) -> Option<&'a str> { args.iter().find_map(|a| a.strip_prefix(key).and_then(|r| r.strip_prefix('='))) }
 
@@ -596,6 +619,61 @@ impl Impl {
                         format!("{o}{suf}")
                     }
                 }
+            }
+
+            ["k.new", mx, clones] => {
+                let base: &'static fastcgi_server::async_io::Runner = Box::leak(Box::new(config(8192, mx.parse().ok()?).async_runner()));
+                let mut runners = vec![base];
+                for _ in 0..clones.parse::<usize>().ok()? { runners.push(Box::leak(Box::new(base.clone()))); }
+                self.k = KState { runners, ..Default::default() };
+                format!("ok{}", self.k.suffix())
+            }
+            ["k.get", c] => {
+                let r = *self.k.runners.get(c.parse::<usize>().ok()?)?;
+                let fut: TokenFut = Box::pin(r.get_token());
+                self.k.futs.push(Some((fut, Arc::new(CountWaker(Default::default())))));
+                format!("a{}{}", self.k.futs.len() - 1, self.k.suffix())
+            }
+            ["k.poll", a] => {
+                let i: usize = a.parse().ok()?;
+                let Some(Some((fut, cw))) = self.k.futs.get_mut(i) else { return Some("no-future".into()) };
+                let waker = std::task::Waker::from(cw.clone());
+                let mut cx = Context::from_waker(&waker);
+                match fut.as_mut().poll(&mut cx) {
+                    Poll::Ready(t) => { self.k.futs[i] = None; self.k.tokens.push(Some(t)); format!("ready t{}{}", self.k.tokens.len() - 1, self.k.suffix()) }
+                    Poll::Pending => format!("pending{}", self.k.suffix()),
+                }
+            }
+            ["k.drop_pending", a] => {
+                let i: usize = a.parse().ok()?;
+                match self.k.futs.get_mut(i) { Some(slot @ Some(_)) => { *slot = None; format!("ok{}", self.k.suffix()) } _ => "no-future".into() }
+            }
+            ["k.drop_token", t] => {
+                let i: usize = t.parse().ok()?;
+                match self.k.tokens.get_mut(i) { Some(slot @ Some(_)) => { *slot = None; format!("ok{}", self.k.suffix()) } _ => "no-token".into() }
+            }
+            ["g.new", n] => {
+                let n: usize = n.parse().ok()?;
+                let runner = config(8192, n.max(1)).async_runner();
+                let w = futures_util::task::noop_waker(); let mut cx = Context::from_waker(&w);
+                let mut toks = vec![];
+                for _ in 0..n { let f = runner.get_token(); futures_util::pin_mut!(f); match f.poll(&mut cx) { Poll::Ready(t) => toks.push(Some(t)), Poll::Pending => return Some("get_token-pending".into()) } }
+                let fut: Pin<Box<dyn Future<Output = ()>>> = Box::pin(runner.shutdown());
+                self.k = KState { tokens: toks, shutdown: Some((fut, Arc::new(CountWaker(Default::default())))), ..Default::default() };
+                "ok".into()
+            }
+            ["g.poll"] => {
+                let Some((fut, cw)) = self.k.shutdown.as_mut() else { return Some("no-future".into()) };
+                let waker = std::task::Waker::from(cw.clone());
+                let mut cx = Context::from_waker(&waker);
+                let r = fut.as_mut().poll(&mut cx);
+                format!("{} wakes={}", if r.is_ready() { "ready" } else { "pending" }, cw.0.load(std::sync::atomic::Ordering::SeqCst))
+            }
+            ["g.drop", t] => {
+                let i: usize = t.parse().ok()?;
+                match self.k.tokens.get_mut(i) { Some(slot @ Some(_)) => { *slot = None; } _ => return Some("no-token".into()) }
+                let w = self.k.shutdown.as_ref().map_or(0, |(_, cw)| cw.0.load(std::sync::atomic::Ordering::SeqCst));
+                format!("ok wakes={w}")
             }
             ["t.run", rest @ ..] => crate::runloop::run_case(rest)?,
             _ => return None,
